@@ -13,7 +13,7 @@ import re
 import strfold
 import taint
 from facts import find_hir, strip
-from hireval import Evaluator, State, TooManyPaths
+from hireval import mk_bool, Evaluator, State, TooManyPaths
 
 LEVEL = "other"
 CRATES_QUICK = ["dmntk_feel_number", "dmntk_feel", "dmntk_feel_evaluator", "dmntk_common"]
@@ -69,6 +69,8 @@ def fold_text(F, name, text, crate_fns):
         c = callee or ""
         if c.endswith("::dec_to_string") or c.endswith("::dec::dec_to_string"):
             return text
+        if c.endswith("::dec_is_finite") or c.endswith("::is_finite"):
+            return mk_bool(True)          # the library texts folded here are those of finite numbers (the statement is about finite numbers)
         if c.endswith("::write_fmt") and len(args) == 2:
             r = sf.format_value(args[1])
             return ("written", r) if r is not None else None
